@@ -158,7 +158,15 @@ type damage struct {
 	midGroup bool   // bytes are missing in the middle of the stream (truncation of a file that is not the last)
 	none     bool   // the image is an undamaged record sequence
 	cut      bool   // the only damage is that the END of the stream is missing (crash, truncation of the last file)
-	desc     string
+	// lost: stream range [lost[0], lost[1]) whose bytes are MISSING from the image (truncations); a record that
+	// overlaps it was not completely written / is torn and must never be surfaced
+	lost [2]int
+	desc string
+}
+
+// tornBy: record i has bytes in the missing range.
+func (d damage) tornBy(r rec) bool {
+	return d.lost[1] > d.lost[0] && r.end > d.lost[0] && r.start < d.lost[1]
 }
 
 // ---- observation through the real reader stack ----
@@ -312,6 +320,15 @@ func checkRead(L *layout, d damage, o readOut, from int, who string) []viol {
 			vs = append(vs, viol{"decode:yields-unwritten-message:" + d.class, fmt.Sprintf("%s: message #%d read back from a %s image was never written: %s", who, n, d.class, o.bad)})
 			return vs
 		}
+		if d.tornBy(L.recs[i]) {
+			r := L.recs[i]
+			have := d.lost[0] - r.start
+			if have < 0 {
+				have = 0
+			}
+			vs = append(vs, viol{"decode:torn-record-surfaced-as-complete:" + d.class, fmt.Sprintf("%s: message #%d read back is record %d (%s), of which only %d of %d bytes are in the log (%s); the missing bytes are % x", who, n, i, r.desc, have, r.end-r.start, d.desc, missingBytes(r, d))})
+			return vs
+		}
 		if i <= prev {
 			vs = append(vs, viol{"decode:message-out-of-order-or-repeated:" + d.class, fmt.Sprintf("%s: message #%d read back is written record %d, after record %d", who, n, i, prev)})
 			return vs
@@ -395,13 +412,17 @@ func evalImage(w cs.WAL, L *layout, d damage, heights []uint64, st stats) []viol
 func evalSearch(w cs.WAL, L *layout, d damage, h uint64, ignore bool, streamLen int, st stats) (vs []viol) {
 	who := fmt.Sprintf("SearchForEndHeight(%d, ignoreCorruption=%v)", h, ignore)
 	occ := L.markers[int64(h)]
-	if d.cut && !d.none {
+	if (d.cut && !d.none) || d.lost[1] > d.lost[0] {
 		// only what survives the cut counts as completely written
 		var keep []int
 		for _, m := range occ {
-			if m < d.p {
-				keep = append(keep, m)
+			if d.cut && !d.none && m >= d.p {
+				continue
 			}
+			if d.tornBy(L.recs[m]) {
+				continue
+			}
+			keep = append(keep, m)
 		}
 		occ = keep
 	}
@@ -485,6 +506,25 @@ func evalSearch(w cs.WAL, L *layout, d damage, h uint64, ignore bool, streamLen 
 		}
 	}
 	return append(vs, best...)
+}
+
+// missingBytes: the bytes of record r (framed) that fall into the missing range.
+func missingBytes(r rec, d damage) []byte {
+	f := frame(r.payload)
+	lo, hi := d.lost[0]-r.start, d.lost[1]-r.start
+	if lo < 0 {
+		lo = 0
+	}
+	if hi > len(f) {
+		hi = len(f)
+	}
+	if lo >= hi {
+		return nil
+	}
+	if hi-lo > 16 {
+		hi = lo + 16
+	}
+	return f[lo:hi]
 }
 
 func (L *layout) describeFiles() string {
